@@ -2,6 +2,7 @@
    All kind-specific glue is here so the OCaml driver stays generic.  The only effectful thing in
    the runner is [oracle], a question/answer call-back answered by the Go standard library. *)
 From FDO Require Export Run.Sexp Rv.RvImpl Cose.Sign1 Kex.Crypter Kex.Kdf Svi.Chunk Cbor.RoundTripCheck Fdo.Voucher.
+From FDO Require Fdo.Server.
 Local Open Scope N_scope.
 
 Definition unhexnum (b : bytes) : option N :=
@@ -151,6 +152,26 @@ Section Dispatch.
           | _ => Some (s "err-decode"%bs)
           end
         | _, _, _, _ => Some bad_args
+        end
+      | _ => Some bad_args
+      end
+    else if bytes_eqb kind (s "dev.redirect"%bs) then
+      (* the device's decision on a TO1 redirect blob at the start of TO2 (to2.go verifyVoucher): go on only if the
+         COSE_Sign1 verifies under the owner key; a verification error is an abort like a wrong signature *)
+      match args with
+      | [tp; kk; kn; kid; AB obj] =>
+        match parse_ty tp, parse_key kk kn kid with
+        | Some tP, Some key =>
+          match munmarshal (ty_sign1 tP) obj with
+          | Ok (VList [VMap prot; _; pl; VBytes sig]) =>
+            let stored := match pl with VNull => None | x => Some x end in
+            match sign1_verify O_der O_rfc3339 O_verify tP TBytes key prot stored None sig (VBytes []) with
+            | Ok true => Some (s "accept"%bs)
+            | _ => Some (s "abort"%bs)
+            end
+          | _ => Some (s "abort"%bs)
+          end
+        | _, _ => Some bad_args
         end
       | _ => Some bad_args
       end
@@ -378,6 +399,35 @@ Section Dispatch.
       end
     else None.
 
+
+  (* ---- abstract server state machine: srv.history ((type tok ok enc hmac) ...) ; tok = -1: no valid token ---- *)
+  Definition req_of_arg (a : arg) : option Server.request :=
+    match a with
+    | AL [AN t; AZ tok; AN ok; AN en; AN hm] =>
+      Some (Server.mkreq t (if (tok <? 0)%Z then Server.TInvalid else Server.TSess (Z.to_nat tok))
+                         (negb (ok =? 0)%N) (negb (en =? 0)%N) (negb (hm =? 0)%N))
+    | _ => None
+    end.
+  Fixpoint reqs_of_args (l : list arg) : option (list Server.request) :=
+    match l with
+    | [] => Some []
+    | a :: r => match req_of_arg a, reqs_of_args r with Some x, Some xs => Some (x :: xs) | _, _ => None end
+    end.
+  Definition render_effect (e : Server.effect) : bytes :=
+    match e with Server.EDIVoucher => s "V"%bs | Server.ERVBlob => s "B"%bs | Server.EModule => s "M"%bs | Server.EReplace => s "R"%bs end.
+  Definition render_step (x : Server.response * list Server.effect) : bytes :=
+    sp ++ (match fst x with Server.RType t => hexnum t | Server.RNoBody => s "-"%bs end) ++ s ":"%bs ++ concat (map render_effect (snd x)).
+  Definition run_server (kind : bytes) (args : list arg) : option bytes :=
+    if bytes_eqb kind (s "srv.history"%bs) then
+      match args with
+      | [AL rs] => match reqs_of_args rs with
+                   | Some reqs => Some (s "ok"%bs ++ concat (map render_step (snd (Server.run [] reqs))))
+                   | None => Some bad_args
+                   end
+      | _ => Some bad_args
+      end
+    else None.
+
   Definition dispatch (kind : bytes) (args : list arg) : bytes :=
     match run_cbor kind args with
     | Some r => r
@@ -399,7 +449,7 @@ Section Dispatch.
               | None =>
                 match run_voucher kind args with
                 | Some r => r
-                | None => s "unknown-kind"%bs
+                | None => match run_server kind args with Some r => r | None => s "unknown-kind"%bs end
                 end
               end
             end
